@@ -63,6 +63,10 @@ STRUCTS = {
     # a mixed-occupancy site: F and O listed at bit-identical coordinates, F first; the pattern needs the O
     'S36': ('o1', [dict(kind='raw', el=['F', 'C', 'H', 'N', 'O'], pos=[(0, 0, 1.4), (0, 0, 0), (1.0, 0, 0), (0, 1.2, 0), (0, 0, 1.4)], pose='p1', at=(2.0, 3.0, 4.0)),
                    dict(kind='raw', el=['C', 'H', 'N', 'O', 'O'], pos=[(0, 0, 0), (1.0, 0, 0), (0, 1.2, 0), (0, 0, 1.4), (0, 0, 1.4)], pose='p4', at=(6.5, 7.0, 8.0))], 'chiral4'),
+    # six C-H copies whose first atom lies ON the a = 0 face of a triclinic cell (at u*b + v*c): its fractional a-coordinate computes to 0 or
+    # to -O(1e-17) in floating point (used with a concrete zero shift along a; the exact model sees 0, the IEEE runs of the witnesses see the noise)
+    'S37': ('t1', [dict(motif='pair', pose=ps, at=tuple(u * np.array(CELLS['t1'][1]) + v * np.array(CELLS['t1'][2])))
+                   for ps, (u, v) in zip(['p1', 'p2', 'p3', 'p4', 'p5', 'id'], [(0.2, 0.3), (0.5, 0.6), (0.7, 0.15), (0.35, 0.8), (0.85, 0.45), (0.1, 0.7)])], 'pair'),
     # orthogonal cell whose vectors are not axis-aligned
     'S22': ('orot', [dict(motif='chiral4', pose='p1', at=(1.0, 6.0, 4.0)), dict(motif='chiral4', pose='p4', at=(-3.0, 9.0, 9.0)),
                      dict(motif='chiral4', pose='p2', at=(-1.0, 3.0, 7.0), kind='mirror')], 'chiral4'),
@@ -223,6 +227,8 @@ def std_instances(tier, seed, families=('face',)):
         add(f"find:S35:axis{ax}:off-plane-atom-half-a-cell-edge-above-the-plane", struct='S35', axes=[ax], other=(0.1, 0.3, 0.2), cost=20)
     add("find:S36:axis1:two-atoms-at-identical-coordinates", struct='S36', axes=[1], other=(0.2, 0, 0.6), cost=25)
     add("find:S36:axis0:two-atoms-at-identical-coordinates", struct='S36', axes=[0], other=(0, 0.5, 0.1), cost=25)
+    for ax in (1, 2):
+        add(f"find:S37:axis{ax}:first-atoms-on-a-cell-face", struct='S37', axes=[ax], other=(0.0, 0.0, 0.0), cost=40)
     add("find:S30:axis0:strongly-tilted-cell", struct='S30', axes=[0], other=(0, 0.55, 0.8), cost=40)
     # a pattern element that does not occur in the structure at all (and sorts before / after the ones that do): no match
     add("find:S5:axis0:pattern-element-absent-from-structure:B", struct='S5', axes=[0], other=(0, 0.4, 0.7), pat_elements=['B', 'H'], cost=10)
